@@ -328,8 +328,18 @@ def check_sequence(ctx, case):
             elif isinstance(x, pe.CObs) and not bad and rng.random() < 0.3 and isinstance(x.real, pe.Obs):
                 pool.append(x.real)
 
+    # two stretches of one chain with a stretch in between on which nothing was measured (same spacing, same grid)
+    st_ = rng.choice([1, 2, 3])
+    o0_ = rng.randint(1, 9)
+    n1_, gap_, n2_ = rng.randint(5, 10), rng.randint(1, 6), rng.randint(5, 10)
+    s1_ = base_obs(rng, nprng, ens='A', names=['A|r1'], idl=range(o0_, o0_ + st_ * n1_, st_))
+    s2_ = base_obs(rng, nprng, ens='A', names=['A|r1'], idl=range(o0_ + st_ * (n1_ + gap_), o0_ + st_ * (n1_ + gap_ + n2_), st_))
+    pool += [s1_, s2_]
+    forced = [(s1_, s2_)] if rng.random() < 0.6 else []
     for step in range(case['len']):
         kind = rng.choice(['arith', 'arith', 'arith', 'func', 'reweight', 'correlate', 'merge', 'fit', 'root', 'json', 'dobs', 'pickle', 'jack', 'derived'])
+        if forced:
+            kind = 'arith'
         try:
             with warnings.catch_warnings(), quiet():
                 warnings.simplefilter('ignore')
@@ -341,7 +351,18 @@ def check_sequence(ctx, case):
                     if op == 'pow' and 'complex' in (lk, rk):
                         op = 'mul'          # Obs ** complex is the known finding F1; exercised by the table, not by sequences
                     a, b = operand(lk, rng, nprng, pool), operand(rk, rng, nprng, pool)
-                    produced('arith %s %s %s' % (op, lk, rk), apply(op, a, b))
+                    if forced:
+                        (a, b), lk, rk, op = forced.pop(), 'obs', 'obs', rng.choice(['add', 'mul', 'sub'])
+                    r_ = apply(op, a, b)
+                    produced('arith %s %s %s' % (op, lk, rk), r_)
+                    if isinstance(a, pe.Obs) and isinstance(b, pe.Obs) and isinstance(r_, pe.Obs):
+                        # "configuration numbers" of a chain of the result: those of the operands on that chain, nothing else
+                        for n_ in r_.names:
+                            if n_ in r_.covobs:
+                                continue
+                            want_ = set(int(c) for c in a.idl.get(n_, [])) | set(int(c) for c in b.idl.get(n_, []))
+                            if set(int(c) for c in r_.idl[n_]) != want_:
+                                probs.append(('violation', 'malformed:arith', {'after': list(trace), 'clauses': ['chain %s lists configurations %r that no operand has' % (n_, sorted(set(int(c) for c in r_.idl[n_]) - want_)[:5])]}))
                 elif kind == 'func':
                     f = rng.choice(['sqrt', 'log', 'exp', 'sin', 'cos', 'tanh', 'arctan', 'arcsinh', 'abs'])
                     a = rng.choice(pool)
